@@ -14,6 +14,7 @@ import (
 	"path/filepath"
 	"runtime"
 	"runtime/debug"
+	"sort"
 	"strconv"
 	"strings"
 	"sync"
@@ -183,6 +184,9 @@ type planSpec struct {
 	Model  func(cc *coqCtx) string // Coq list of commands, "" = none
 }
 
+// class used instead of <Family>_stream_split_dependent (known defect of this path)
+var planKnown = map[string]string{"sort_twopass": "parallel_sort_then_two_pass_wrong_result"}
+
 func gstatsOn(by []string) func(cc *coqCtx) string {
 	return func(cc *coqCtx) string {
 		return fmt.Sprintf("(gstats_cmd %s %s %s %s)", cc.fieldList(by), cc.field("v"), cc.field("count(*)"), cc.field("sum(v)"))
@@ -218,6 +222,11 @@ func planSpecs() []planSpec {
 		{"parallel_sort", "where v>0 | sort -v, id | head 3", cmpOrdered, nil, false, nil},
 		{"parallel_top", "eval w=v*2 | top a", cmpCounts, []string{"percent"}, false, nil},
 		{"parallel_top", "where v>=0 | rare g", cmpCounts, []string{"percent"}, false, nil},
+		// known defect: a two-pass command BEHIND parallel sort chains re-reads sort results that the
+		// merger has already consumed
+		{"sort_twopass", "sort 100 lat, id | fillnull value=0", cmpOrdered, nil, false, nil},
+		{"sort_twopass", "where v>=0 | sort 5 -lat, id | fillnull value=0", cmpOrdered, nil, false, nil},
+		{"sort_twopass", "eval w=lat*2 | sort 4 w, id | bin w", cmpOrdered, nil, false, nil},
 		// order-sensitive command first: one chain
 		{"ordered", "dedup a | stats count by a", cmpMultiset, nil, false, nil},
 		{"ordered", "head 5 | sort v, id", cmpOrdered, nil, false, nil},
@@ -345,6 +354,9 @@ func runPlannedStream(cfg vhlib.Config, sum *vhlib.Summary, rng *vhlib.Rng) {
 							again = 4
 						}
 						cls := s.Family + "_stream_split_dependent"
+						if k := planKnown[s.Family]; k != "" && pr.Chains > 1 {
+							cls = k
+						}
 						if again == 0 {
 							cls = "parallel_chains_shared_options_race"
 						} else {
@@ -388,6 +400,142 @@ func runPlannedStream(cfg vhlib.Config, sum *vhlib.Summary, rng *vhlib.Rng) {
 	runPlannerCases(cfg, sum)
 }
 
+// Several ORDERED upstream streams merged under a row limit by the merger DataProcessor
+// (what SetupQueryParallelism puts behind parallel sort chains), read by a one-pass or a
+// two-pass command: the first `limit` rows of the merged order, in one or two passes.
+func runMergerStream(cfg vhlib.Config, sum *vhlib.Summary, r *vhlib.Rng) {
+	nTables := 6
+	if cfg.Thorough() {
+		nTables = 60
+	}
+	for ti := 0; ti < nTables; ti++ {
+		n := 2 + r.Intn(14)
+		keys := make([]int, n)
+		for i := range keys {
+			keys[i] = i * 3
+		}
+		for i := n - 1; i > 0; i-- {
+			j := r.Intn(i + 1)
+			keys[i], keys[j] = keys[j], keys[i]
+		}
+		all := make([][]Cell, n)
+		for i := 0; i < n; i++ {
+			row := []Cell{{K: 'i', I: int64(1700000000000 - i)}, {K: 'i', I: int64(i)}, {K: 'i', I: int64(keys[i])}, {}}
+			if r.Chance(40) {
+				row[3] = Cell{K: 's', S: "q"}
+			}
+			all[i] = row
+		}
+		for _, k := range []int{2, 3, 4} {
+			// deal the rows to k streams, order every stream by key
+			per := make([][][]Cell, k)
+			for i, row := range all {
+				s := r.Intn(k)
+				if i < k {
+					s = i
+				}
+				per[s] = append(per[s], row)
+			}
+			sorted := append([][]Cell{}, all...)
+			sort.Slice(sorted, func(a, b int) bool { return sorted[a][2].I < sorted[b][2].I })
+			for _, limit := range []int{1, n / 2, n, n + 5} {
+				for _, down := range []string{"fillnull value=0", "fillnull value=0 b"} {
+					if limit == 0 {
+						continue
+					}
+					res, desc := runMerger(r, per, uint64(limit), down)
+					// expected: the first `limit` rows of the whole order, b filled
+					want := []CRow{}
+					full := &Table{Cols: []string{tsCol, "id", "key", "b"}, Rows: sorted}
+					for i := 0; i < len(sorted) && i < limit; i++ {
+						row := full.crow(i)
+						if row.get("b").K == 0 {
+							row = withCell(row, "b", Cell{K: 's', S: "0"})
+						}
+						want = append(want, row)
+					}
+					sum.Eval(fmt.Sprintf("merger|%d|%d|%d|%s|%s", ti, k, limit, down, desc), k > 1)
+					sum.Count(fmt.Sprintf("merger_streams/%d", k))
+					if res.Err != "" || !sameOrdered(res.Rows, want) {
+						passes := "two passes"
+						if strings.HasSuffix(down, " b") {
+							passes = "one pass"
+						}
+						sum.Fail("ordered_merge_limit_wrong_rows",
+							fmt.Sprintf("merger DP (limit %d) over %d ordered streams %s read by %q (%s) gives %s; the first %d rows of the merged order give %s%s",
+								limit, k, desc, down, passes, firstDiff(rowsStr(res.Rows), rowsStr(want)), limit, "", errNote(res.Err)),
+							map[string]interface{}{"streams": desc, "limit": limit, "downstream": down, "got": rowsStr(res.Rows), "want": rowsStr(want), "err": res.Err})
+					}
+				}
+			}
+		}
+	}
+}
+
+func runMerger(r *vhlib.Rng, per [][][]Cell, limit uint64, down string) (res runResult, desc string) {
+	defer func() {
+		if rec := recover(); rec != nil {
+			res.Err = fmt.Sprintf("panic: %v", rec)
+		}
+	}()
+	merger := processor.VerifNewOrderedMergerDP("key", limit)
+	var streams []*processor.CachedStream
+	parts := []string{}
+	for _, rows := range per {
+		sorted := append([][]Cell{}, rows...)
+		sort.Slice(sorted, func(a, b int) bool { return sorted[a][2].I < sorted[b][2].I })
+		t := &Table{Cols: []string{tsCol, "id", "key", "b"}, Rows: sorted}
+		bs := &blockStreamer{t: t}
+		ks := []string{}
+		for lo := 0; lo < len(sorted); {
+			n := 1 + r.Intn(4)
+			if lo+n > len(sorted) {
+				n = len(sorted) - lo
+			}
+			bs.blocks = append(bs.blocks, [2]int{lo, lo + n})
+			lo += n
+		}
+		for _, row := range sorted {
+			ks = append(ks, strconv.FormatInt(row[2].I, 10))
+		}
+		parts = append(parts, fmt.Sprintf("[keys %s in %d blocks]", strings.Join(ks, " "), len(bs.blocks)))
+		streams = append(streams, processor.NewCachedStream(bs))
+	}
+	desc = strings.Join(parts, " ")
+	merger.SetStreams(streams)
+	_, aggs, _, perr := pipesearch.ParseQuery("* | "+down, 0, "Splunk QL")
+	if perr != nil {
+		res.Err = "parse: " + perr.Error()
+		return
+	}
+	dps := processor.AggsToDataProcessors(aggs, nil)
+	if len(dps) != 1 {
+		res.Err = "unexpected chain"
+		return
+	}
+	dps[0].SetStreams([]*processor.CachedStream{processor.NewCachedStream(merger)})
+	for n := 0; n < 200; n++ {
+		q, ferr := dps[0].Fetch()
+		if ferr != nil && ferr != io.EOF {
+			res.Err = "fetch: " + ferr.Error()
+			return
+		}
+		if q != nil {
+			rs, rerr := rowsOf(q)
+			if rerr != nil {
+				res.Err = "read: " + rerr.Error()
+				return
+			}
+			res.Rows = append(res.Rows, rs...)
+		}
+		if ferr == io.EOF {
+			return
+		}
+	}
+	res.Err = "no EOF"
+	return
+}
+
 // The cloned chains run concurrently on shared option structs (known race); besides wrong
 // results this can end in a nil dereference inside a goroutine of fetchFromAnyStream, which
 // no caller can recover: the streams that build parallel chains therefore run in child processes.
@@ -402,6 +550,7 @@ func childMain(kind string) {
 	switch kind {
 	case "planned":
 		runPlannedStream(cfg, sum, rng)
+		runMergerStream(cfg, sum, rng.Fork())
 	case "race":
 		runRaceStream(cfg, sum, rng)
 	}
@@ -592,6 +741,27 @@ func stressMain(args []string) {
 			}
 		}
 		fmt.Printf("%q: %d bad of 3000\n", spl, bad)
+	}
+}
+
+func sortProbeMain(args []string) {
+	r := vhlib.NewRng(11)
+	for _, n := range []int{6, 12, 24, 36} {
+		t := genClustered(r, n)
+		for _, spl := range args {
+			ref := runChain(spl, t, []int{n}, false)
+			for _, k := range []int{1, 3, 6} {
+				pr := runPlanned(spl, t, blocksOf(n, k), 4, false)
+				ids := func(rs []CRow) string {
+					o := []string{}
+					for _, x := range rs {
+						o = append(o, x.get("id").canon()[2:])
+					}
+					return strings.Join(o, ",")
+				}
+				fmt.Printf("n=%d %q blocks=%d chains=%d err=%q\n   got  %s\n   want %s\n", n, spl, k, pr.Chains, pr.Err, ids(pr.Rows), ids(ref.Rows))
+			}
+		}
 	}
 }
 
